@@ -91,6 +91,15 @@ def _static_jobs(seed, n_rec, n_gen, modes_rec, modes_gen, tag):
         rng = random.Random(seed + 50 + i)
         jobs.append(dict(kind="pyfunc", module="harness.compiled_jobs", func="static_job", id=f"{tag}gen{i}", cfg=cfg, seed=seed + i, source="generate",
                          ts_max=rng.choice([32, 48, 64, 96]), num_episodes=rng.choice([1, 2, 3]), modes=modes_gen(i), timeout=1500))
+    # generated graphs with one trainable (zero-order-hold) connection: the scheduled window is extended by ceil(rate_out * (max - min))
+    from . import smallchecks
+    for i in range(max(1, n_gen // 2)):
+        cfg = smallchecks.c10_e2e_cfg(seed * 1000 + 7000 + i, jitter=(i % 2 == 1), skip=(i % 3 == 2))
+        if cfg is None:
+            continue
+        rng = random.Random(seed + 90 + i)
+        jobs.append(dict(kind="pyfunc", module="harness.compiled_jobs", func="static_job", id=f"{tag}trn{i}", cfg=cfg, seed=seed + i, source="generate",
+                         ts_max=rng.choice([32, 48, 64]), num_episodes=rng.choice([1, 2]), modes=modes_gen(i), timeout=1500))
     return jobs
 
 
